@@ -166,7 +166,8 @@ namespace Pistache::Http::Experimental
 
         Async::Promise<ssize_t>
         asyncSendRequest(std::shared_ptr<Connection> connection,
-                         std::shared_ptr<TimerPool::Entry> timer, std::string buffer);
+                         std::shared_ptr<TimerPool::Entry> timer, std::string buffer,
+                         uint64_t serial);
 
     private:
         enum WriteStatus { FirstTry,
@@ -201,12 +202,14 @@ namespace Pistache::Http::Experimental
         {
             RequestEntry(Async::Resolver resolve, Async::Rejection reject,
                          std::shared_ptr<Connection> connection,
-                         std::shared_ptr<TimerPool::Entry> timer, std::string buf)
+                         std::shared_ptr<TimerPool::Entry> timer, std::string buf,
+                         uint64_t serial)
                 : resolve(std::move(resolve))
                 , reject(std::move(reject))
                 , connection(connection)
                 , timer(timer)
                 , buffer(std::move(buf))
+                , serial(serial)
             { }
 
             Async::Resolver resolve;
@@ -214,6 +217,8 @@ namespace Pistache::Http::Experimental
             std::weak_ptr<Connection> connection;
             std::shared_ptr<TimerPool::Entry> timer;
             std::string buffer;
+            // which of the connection's requests these bytes belong to
+            uint64_t serial;
         };
 
         PollableQueue<RequestEntry> requestsQueue;
@@ -290,14 +295,14 @@ namespace Pistache::Http::Experimental
     Async::Promise<ssize_t>
     Transport::asyncSendRequest(std::shared_ptr<Connection> connection,
                                 std::shared_ptr<TimerPool::Entry> timer,
-                                std::string buffer)
+                                std::string buffer, uint64_t serial)
     {
 
         return Async::Promise<ssize_t>(
             [&](Async::Resolver& resolve, Async::Rejection& reject) {
                 auto ctx = context();
                 RequestEntry req(std::move(resolve), std::move(reject), connection,
-                                 timer, std::move(buffer));
+                                 timer, std::move(buffer), serial);
                 if (std::this_thread::get_id() != ctx.thread())
                 {
                     requestsQueue.push(std::move(req));
@@ -316,6 +321,12 @@ namespace Pistache::Http::Experimental
         auto conn          = req.connection.lock();
         if (!conn)
             throw std::runtime_error("Send request error");
+
+        // The request may be over by the time its bytes are to be written: the
+        // peer hung up and the request was rejected, and the connection may even
+        // be established again and carry somebody else's request by now.
+        if (!conn->isPending(req.serial))
+            return;
 
         // The connection may have been closed (the peer hung up) after the request
         // was handed over; its descriptor number may already belong to another
@@ -750,6 +761,12 @@ namespace Pistache::Http::Experimental
         }
     }
 
+    bool Connection::isPending(uint64_t serial)
+    {
+        std::lock_guard<std::mutex> guard(requestEntryLock);
+        return requestEntry && requestEntry->serial == serial;
+    }
+
     std::unique_ptr<Connection::RequestEntry> Connection::takeRequestEntry()
     {
         std::lock_guard<std::mutex> guard(requestEntryLock);
@@ -803,12 +820,14 @@ namespace Pistache::Http::Experimental
             timer->arm(timeout);
         }
 
+        uint64_t serial;
         {
             std::lock_guard<std::mutex> guard(requestEntryLock);
+            serial       = ++requestSerial;
             requestEntry = std::make_unique<RequestEntry>(std::move(resolve), std::move(reject),
-                                                          timer, std::move(onDone));
+                                                          timer, std::move(onDone), serial);
         }
-        transport_->asyncSendRequest(shared_from_this(), timer, std::move(buffer));
+        transport_->asyncSendRequest(shared_from_this(), timer, std::move(buffer), serial);
     }
 
     void Connection::processRequestQueue()
